@@ -131,7 +131,7 @@ func TestC02Rapid(t *testing.T) {
 
 func genC02Proto(t *rapid.T) ProtoCase {
 	c := ProtoCase{Ifaces: []string{"x.y"}, Transport: "pipe", Origin: "C02svc"}
-	if rapid.IntRange(0, 7).Draw(t, "unix") == 0 {
+	if rapid.IntRange(0, 4).Draw(t, "unix") == 0 {
 		c.Transport = "unix"
 	}
 	cc := ConnCase{AbortAt: -1}
@@ -163,6 +163,11 @@ func genC02Proto(t *rapid.T) ProtoCase {
 		nseg := len(Segments(stream, cc.Cuts))
 		cc.PauseAt = rapid.IntRange(1, nseg).Draw(t, "pause_at")
 		cc.PauseMS = rapid.SampledFrom([]int{5, 120, 350}).Draw(t, "pause_ms")
+	}
+	if c.Transport == "unix" && rapid.Bool().Draw(t, "halfclose") {
+		// the client shuts down its sending side right after the last byte and reads to EOF:
+		// everything it sent before is still a sequence of complete messages and is answered in full
+		cc.AbortAt = len(stream)
 	}
 	c.Conns = []ConnCase{cc}
 	return c
